@@ -226,6 +226,7 @@ func TestVerifC11(t *testing.T) {
 			sc.Link.D, sc.Link.P = pick(rng, []int{1, 2, 3}), pick(rng, []int{1, 2})
 		}
 		sc.Link.UDPAddr = rng.chance(0.5)
+		sc.Link.Batch = rng.chance(0.4)
 		sc.Clients = pick(rng, []int{2, 3, 5, 8, 16, 24})
 		if env.thorough() && q%10 == 0 {
 			// (400 clients in one bubble needed 16 GB under the race detector and
